@@ -69,8 +69,10 @@ def parseStep (s : String) (K : Nat) : Option SStep :=
     -- tenth field: passive unhealthy_latency configured (then the ninth may be 0 = no own max_requests)
     match parseKeys ks K, num p, num d, num m, num r, num q, num st, num x, num l with
     | some ks, some p, some d, some m, some r, some q, some st, some x, some l =>
-      if p ≤ 1 && r ≤ 8 && st ≤ 7 && m ≤ 100 && q ≤ 100 && x ≤ 100 && l == 1 then
-        some (.load ks (mkParams p d m r q st x false l)) else none
+      -- l: 1 = unhealthy_latency, 2 = active health checks in the background (thresholds out of reach:
+      -- they change nothing the model sees), 3 = both
+      if p ≤ 1 && r ≤ 8 && st ≤ 7 && m ≤ 100 && q ≤ 100 && x ≤ 100 && 1 ≤ l && l ≤ 3 then
+        some (.load ks (mkParams p d m r q st x false (if l == 2 then 0 else 1))) else none
     | _, _, _, _, _, _, _, _, _ => none
   | ["Y", ks, p, d, m, r, q, st] =>
     -- a configuration whose upstreams come from a dynamic source returning `ks`
